@@ -72,7 +72,7 @@ META = {
         "to the match_titles parameter of a docutils-state nested_parse and <node> is the argument of the enclosing current_node_context - any other caller "
         "passing a temp root is a violation; the level registered by the section path is exactly tag digit + "
         "heading offset (R5: the section treated as top-level - MathJax ignore classes - is recognised by `not isinstance(section.parent, section)` / parent is the document, "
-        "evaluated after the level-state update attached it; a comparison of the heading level with a constant in that condition is a violation, repair 2e8a339), the tag digit being int() of tag[1] / tag[1:] / tag.lstrip('h') / tag.removeprefix('h'); a level derived from token.markup is decided against "
+        "evaluated after the level-state update attached it, or the same test on the node the update returns when it returns, on every path, the node it appended the section to; a comparison of the heading level with a constant in that condition is a violation, repair 2e8a339), the tag digit being int() of tag[1] / tag[1:] / tag.lstrip('h') / tag.removeprefix('h'); a level derived from token.markup is decided against "
         "the parsed markdown-it sources (every heading_open producer must set markup to exactly <level> characters - the setext rule does not, so it is a violation) "
         "(thorough: markdown-it pushes heading_open with 'h'+str(level))."
     ),
@@ -2826,17 +2826,38 @@ def r5_top_level_section(corpus: Corpus, rep: Report, tier: str):
                             continue
                         if any(t_ in ("TAG", "OFFSET") for _s, t_ in ts):
                             literal = cmp_
-        # (b) a test of the section's position
+        # (b) a test of the section's position: `<section>.parent`, or the node the level-state update reports it attached the section to
+        returned_parent: str | None = None  # local bound to the value of the update call
+        ust = cfg.stmt_of(ucall)
+        if isinstance(ust, ast.Assign) and ust.value is ucall and len(ust.targets) == 1 and isinstance(ust.targets[0], ast.Name) and len(name_assignments(f, ust.targets[0].id)) == 1:
+            returned_parent = ust.targets[0].id
+        returns_attach_parent = None  # does the update return, on every path, the node it appended the section to?
+        if returned_parent is not None:
+            p_sec_u = upd.params[1] if len(upd.params) == 3 else None
+            recvs = {unparse(n.func.value) for n in upd.local_nodes() if isinstance(n, ast.Call) and isinstance(n.func, ast.Attribute) and n.func.attr == "append" and n.args and isinstance(n.args[0], ast.Name) and n.args[0].id == p_sec_u}
+            rets = [n for n in upd.local_nodes() if isinstance(n, ast.Return)]
+            ucfg = get_cfg(upd)
+            falls_off = any(isinstance(x, ast.AST) and not isinstance(x, ast.Return) for x in ucfg.pred.get(EXIT, []))
+            returns_attach_parent = bool(rets) and not falls_off and len(recvs) == 1 and all(r.value is not None and unparse(r.value) in recvs for r in rets)
+
+        def is_position(e: ast.AST) -> bool:
+            if isinstance(e, ast.Attribute) and e.attr == "parent" and isinstance(e.value, ast.Name) and e.value.id == sec:
+                return True
+            return isinstance(e, ast.Name) and returned_parent is not None and e.id == returned_parent
+
         pos_test = None
+        via_return = False
         for t, pol in facts_:
-            if isinstance(t, ast.Call) and dotted(t.func) == "isinstance" and len(t.args) == 2 and isinstance(t.args[0], ast.Attribute) and t.args[0].attr == "parent" and isinstance(t.args[0].value, ast.Name) and t.args[0].value.id == sec:
+            if isinstance(t, ast.Call) and dotted(t.func) == "isinstance" and len(t.args) == 2 and is_position(t.args[0]):
+                via_return = via_return or isinstance(t.args[0], ast.Name)
                 classes = isinstance_classes(t.args[1], f) or []
                 if (not pol and SECTION in classes) or (pol and classes and set(classes) <= {DOCUMENT}):
                     pos_test = t
             if isinstance(t, ast.Compare) and len(t.ops) == 1 and isinstance(t.ops[0], (ast.Is, ast.Eq)) and pol:
                 sides = (t.left, t.comparators[0])
-                if any(isinstance(x, ast.Attribute) and x.attr == "parent" and isinstance(x.value, ast.Name) and x.value.id == sec for x in sides) and any(is_self_attr(x, "document") for x in sides):
+                if any(is_position(x) for x in sides) and any(is_self_attr(x, "document") for x in sides):
                     pos_test = t
+                    via_return = via_return or any(isinstance(x, ast.Name) and is_position(x) for x in sides)
         if literal is not None:
             rep.violation(
                 "C05.R5",
@@ -2848,6 +2869,18 @@ def r5_top_level_section(corpus: Corpus, rep: Report, tier: str):
             continue
         if pos_test is None:
             raise Unsupported(f"condition of `{short(call, 50)}` tests neither a heading level nor the parent of the section: recognition of the top-level section not understood")
+        if via_return:
+            if returns_attach_parent:
+                rep.ok("C05.R5", k, site, f"`{short(pos_test, 60)}` on the node {UPDATE} returns: on every path the node it appended the section to")
+            else:
+                rep.violation(
+                    "C05.R5",
+                    k,
+                    site,
+                    f"`{short(pos_test, 60)}` tests the value returned by {UPDATE}, which is not on every path the node the section was appended to (no return value / another node): "
+                    "the top-level section is not recognised by its position",
+                )
+            continue
         # (c) the position is only known after the section was attached
         holder = pos_test
         while not isinstance(holder, ast.stmt):
@@ -3125,6 +3158,20 @@ def mutants(corpus: Corpus):
         add("c05-top-level-also-needs-low-level", "C05.R5", base, mj_if.test, f"({test_txt}) and {lvl_arg.id} <= 2", expect="top-level section recognised")
     else:
         out.append(("c05-top-level-mutants", "MathJax class statement / level-state update not found in the expected order"))
+    # the position test on the node returned by the level-state update (re-modelled clause): returning something else / nothing
+    pos_call = find_node(rh, lambda n: isinstance(n, ast.Call) and dotted(n.func) == "isinstance" and isinstance(n.args[0], ast.Attribute) and n.args[0].attr == "parent") if mj_if is not None else None
+    attach_ = find_node(upd, lambda n: isinstance(n, ast.Call) and isinstance(n.func, ast.Attribute) and n.func.attr == "append" and n.args and isinstance(n.args[0], ast.Name) and n.args[0].id == upd.params[1])
+    if pos_call is not None and upd_stmt is not None and attach_ is not None and not any(isinstance(n, ast.Return) for n in upd.local_nodes()) and upd.node.lineno < rh.node.lineno:
+        last = upd.node.body[-1]
+        ind_u = " " * last.col_offset
+        for mid, ret in (("c05-top-level-test-on-returned-section", upd.params[1]), ("c05-top-level-test-on-missing-return", None)):
+            src_ = splice(base.src, pos_call.args[0], "attached_to")
+            src_ = splice(src_, upd_stmt, "attached_to = " + seg(base, upd_stmt))
+            if ret is not None:
+                src_ = splice(src_, last, seg(base, last) + f"\n{ind_u}return {ret}")
+            out.append(Mutant(mid, "C05.R5", base.rel, src_, expect="top-level section recognised"))
+    else:
+        out.append(("c05-top-level-test-on-returned-value", "layout of render_heading / update_section_level_state not as expected"))
     # ---- R1: a second transfer of rST-parsed children into a container (class of the known finding) --------
     cf = base.func(f"{RENDERER}.render_colon_fence")
     ncall = find_node(cf, lambda n: isinstance(n, ast.Expr) and isinstance(n.value, ast.Call) and isinstance(n.value.func, ast.Attribute) and n.value.func.attr == "nested_render_text")
